@@ -10,6 +10,9 @@
 #if defined(GCDIST)
 #include "trig.h"
 #endif
+#if defined(VERTEXAPI)
+#include "up7model.h"
+#endif
 uint64_t in_h, in_h2, in_w[4]; int in_i1, in_i2, in_k; int64_t in_l1; double in_d1, in_d2, in_d3, in_d4; uint32_t in_u;
 #define CODE(e) ((e) >= 0 && (e) <= 15)
 #ifdef RES
@@ -170,6 +173,27 @@ void harness(void) {
     __CPROVER_assert(CODE(e), "localIjToCell: documented code");
     if (mode != 0) __CPROVER_assert(e == E_OPTION_INVALID, "mode != 0 -> E_OPTION_INVALID");
     VP_WITNESS("ij2cell");
+#elif defined(VERTEXAPI)
+    // vertex functions on an arbitrary word with resolution field RES
+    uint64_t h = in_h = word_at_res("in_h"); int v = in_i1 = vp_int("in_i1");
+    VP_EXCLUDE();
+    H3Error e;
+#if FN == 0
+    H3Index out = 0; e = H3_EXPORT(cellToVertex)(h, v, &out);
+    __CPROVER_assert(CODE(e), "cellToVertex: documented code");
+#elif FN == 1
+    H3Index *vs = xmalloc(6 * sizeof(H3Index)); e = H3_EXPORT(cellToVertexes)(h, vs); free(vs);
+    __CPROVER_assert(CODE(e), "cellToVertexes: documented code");
+#elif FN == 2
+    int ok = H3_EXPORT(isValidVertex)(h); e = 0;
+    __CPROVER_assert(ok == 0 || ok == 1, "isValidVertex is a predicate");
+#elif FN == 3
+    int *fs = xmalloc(5 * sizeof(int)); int mx = 0; H3_EXPORT(maxFaceCount)(h, &mx);
+    int *fs2 = xmalloc(2 * sizeof(int));
+    e = H3_EXPORT(getIcosahedronFaces)(h, mx == 5 ? fs : fs2); free(fs); free(fs2);
+    __CPROVER_assert(CODE(e), "getIcosahedronFaces: documented code");
+#endif
+    VP_WITNESS("vertexapi");
 #elif defined(GCDIST)
     LatLng a, b; a.lat = in_d1 = vp_double("in_d1"); a.lng = in_d2 = vp_double("in_d2"); b.lat = in_d3 = vp_double("in_d3"); b.lng = in_d4 = vp_double("in_d4");
     VP_EXCLUDE();
